@@ -59,6 +59,41 @@ def job_normalize(res, n, nb, pat):
             if fs[b] == 0: prove(res, 'empty bucket %d: every cell is zero after renormalisation%s' % (b, ptag), st.pc, z3.Or(*[v != 0 for v in dat[b * n * n:(b + 1) * n * n]]), key='normalize-empty')
     witness(res, 'normalisation result depends on the data (n=%d)' % n, finals[0].pc, z3.BoolVal(any(occurs(get_reals(ex, f_, R['data'], 1)[0], D[0]) and occurs(get_reals(ex, f_, R['data'], 1)[0], D[1]) for f_ in finals)))
 
+def job_normalize_again(res, n, nb, pat):
+    """a later renormalisation: the buckets with share 0 are already exactly empty (they were cleared by the first one), the filled ones hold arbitrary data.
+    Every bunch must again integrate to its share and the empty buckets must stay exactly zero (no 0/0)."""
+    bld = ps_build(); mod = load_module(bld, PS_MODS)
+    snap, R, pre = ps_world(bld, n, nb, pat)
+    ex = Exec(mod, snap, RealDom()); st = State(); ps = R['ps']; fs = fills(nb, pat)
+    D = []
+    for b in range(nb):
+        for i in range(n * n):
+            a = R['data'] + 4 * (b * n * n + i)
+            if fs[b] == 0: ex.write_bytes(st, a, bytes(4)); st.sym.pop(a, None); D.append(z3.RealVal(0))
+            else:
+                v = z3.Real('d%d' % (b * n * n + i)); st.sym[a] = (4, 'f', v); st.pc.append(v >= 0); D.append(v)
+    def cex(m): return {'replay': 'normalize', 'n': n, 'nb': nb, 'pattern': pat, 'data': [mval(m, v) for v in D]}
+    try:
+        for f in ('e_updx', 'e_integrate'): st = ex.run1(st, f, [ps])
+        fbefore = get_reals(ex, st, R['filling'], nb)
+        st.pc += [fbefore[b] > 0 for b in range(nb) if fs[b] != 0]
+        finals = []
+        for s_n in run_paths(ex, st, 'e_normalize', [ps]):
+            for s_x in run_paths(ex, s_n, 'e_updx', [ps]): finals += run_paths(ex, s_x, 'e_integrate', [ps])
+    except Unsupported as e:
+        if 'division by zero' not in str(e): raise
+        s0 = z3.Solver(); s0.add(*st.pc); m = s0.model() if s0.check() == z3.sat else None
+        res.obs.append(Ob('n=%d nb=%d pattern %s, empty buckets already empty: renormalisation divides 0 by 0 (the measured charge of an empty bucket) - the bucket does not stay zero' % (n, nb, [float(x) for x in fs]), 'violated', key='normalize-empty-again',
+                          cex=cex(m) if m is not None else None, detail=str(e))); return
+    account(res, ex, mod, finals)
+    for k, s1 in enumerate(finals):
+        fa = get_reals(ex, s1, R['filling'], nb); dat = get_reals(ex, s1, R['data'], nb * n * n)
+        for b in range(nb):
+            if fs[b] == 0: prove(res, 'n=%d nb=%d pattern %s: an already empty bucket %d stays exactly zero under a further renormalisation (every cell, its charge)' % (n, nb, [float(x) for x in fs], b), s1.pc,
+                                 z3.Or(fa[b] != 0, *[v != 0 for v in dat[b * n * n:(b + 1) * n * n]]), key='normalize-empty-again', cex_fn=cex)
+            else: prove(res, 'n=%d nb=%d pattern %s: with the empty buckets already empty, bunch %d integrates to its share %s after renormalisation' % (n, nb, [float(x) for x in fs], b, float(fs[b])), s1.pc, fa[b] != fs[b], key='normalize-share', cex_fn=cex, timeout_ms=120000)
+    witness(res, 'later renormalisation n=%d: paths explored' % n, finals[0].pc, z3.BoolVal(True))
+
 def job_moments(res, n, nb, pat, axis, q, p):
     """average/variance with symbolic projections and measured charges: first and second moments of that bunch's projection, independent of other bunches"""
     bld = ps_build(); mod = load_module(bld, PS_MODS)
@@ -116,7 +151,7 @@ def replayer(bld):
         w = c.get('replay'); n, nb, pat = c['n'], c['nb'], c['pattern']
         if w == 'normalize':
             o = native_run(bld, {'n': n, 'nb': nb, 'pattern': pat, 'data': [float(v) for v in c['data']], 'ops': ['x', 'i', 'n', 'x', 'i']}, 'c09')
-            fs = [float(x) for x in fills(nb, pat)]; dev = max(abs(a - b) for a, b in zip(o['filling'], fs))
+            fs = [float(x) for x in fills(nb, pat)]; dev = max((abs(a - b) if a == a else float('inf')) for a, b in zip(o['filling'], fs))
             return (dev > 1e-5, 'native: filling after renormalisation %s vs shares %s' % (o['filling'], fs))
         return (True, 'formula identity of the real kernels: %s' % str(c)[:160])
     return rp
@@ -131,7 +166,7 @@ def main(tier):
         norm = [(n, nb, pat) for n in (4, 5, 6) for nb, pat in ((1, 0), (2, 0), (2, 1), (3, 2), (3, 1))]
         moms = [(n, nb, pat, ax, q, p) for n in (5, 6, 8) for nb, pat in ((1, 0), (2, 1), (3, 2)) for ax in (0, 1) for q, p in (((-6, 6), (-6, 6)), ((-5, 7), (-6.5, 5.5)))]
         cps = [(n, nb, pat) for n in (4, 5) for nb, pat in ((1, 0), (2, 1), (3, 2))]
-    jobs = [(job_normalize, a) for a in norm] + [(job_moments, a) for a in moms] + [(job_copy, a) for a in cps]
+    jobs = [(job_normalize, a) for a in norm] + [(job_normalize_again, a) for a in norm if a[2] == 2] + [(job_moments, a) for a in moms] + [(job_copy, a) for a in cps]
     chk.bounds = {'normalisation (n, bunches, pattern)': norm, 'moments': moms, 'copy': cps, 'data': 'every cell a non-negative real symbol; projections and charges independent symbols in the moment obligations'}
     chk.assumptions = ['floats as reals; sqrtf uninterpreted (rms == sqrt(variance) structurally)', 'equal extents of both axes (as main builds the grid); with unequal extents the shared Simpson weights (cell size of axis 0) scale the energy moments - outside the documented domain',
                        'the Gaussian clause (a Gaussian of given mean/width reports them up to discretisation error) is not decided: it needs exp and a quadrature error bound; the exact moment formulas on arbitrary data are', 'OpenCL path outside']
